@@ -186,6 +186,20 @@ def run(ctx, ck):
             if len(prints) != 1 or not (isinstance(lastb, ast.Return) and isinstance(lastb.value, ast.Constant) and lastb.value.value == 23):
                 return False
         return True
+    def main_reports(exc_name):
+        """main has a handler for the package exception class (or one of its package bases) that prints one
+        diagnostic and returns 23"""
+        names = {exc_name}
+        ci = m.classes.get(exc_name)
+        if ci is not None:
+            names |= {c_.name for c_ in ci.mro}
+        for h_ in [x for x in walk_no_nested(mainf.node) if isinstance(x, ast.ExceptHandler)]:
+            types_ = h_.type.elts if isinstance(h_.type, ast.Tuple) else ([h_.type] if h_.type is not None else [])
+            if any((dotted(t_) or '').split('.')[-1] in names for t_ in types_):
+                np2, r232 = handler_outcome(h_)
+                if np2 == 1 and r232:
+                    return True
+        return False
     for q_ in sorted(ea.entry_helpers()):
         g_ = m.funcs[q_]
         for h in [x for x in walk_no_nested(g_.node) if isinstance(x, ast.ExceptHandler)]:
@@ -201,6 +215,15 @@ def run(ctx, ck):
                caller_prints_text(g_):
                 # the other accepted shape: the helper hands the text of the diagnostic back, main prints it and returns 23
                 ok_h, how_ = True, 'handler returns the diagnostic text; main prints it and returns 23'
+            if not ok_h and np_ == 0 and isinstance(last, ast.Raise) and h.type is not None and \
+               isinstance(last.exc, ast.Call) and isinstance(last.exc.func, ast.Name) and last.exc.func.id in m.classes and \
+               last.exc.args and text_result(last.exc.args[0]) and main_reports(last.exc.func.id):
+                # third accepted shape: the diagnostic travels in an exception class of the package that main
+                # catches in a handler of the usual shape (one print, return 23); that it cannot escape is R-EXC.explicit-raise
+                ok_h, how_ = True, 'handler raises %s with the diagnostic text; main prints it and returns 23' % last.exc.func.id
+            if not ok_h and len(h.body) == 1 and isinstance(last, ast.Raise) and last.exc is None and h.type is not None and \
+               not isinstance(h.type, ast.Tuple) and main_reports((dotted(h.type) or '').split('.')[-1]):
+                ok_h, how_ = True, 'handler hands the diagnostic exception on to main unchanged'
             ck.ob('R-EXC.handler-shape', key, ok_h, g_.loc(h), how_)
     ck.floor('exception handlers in main', n_h, 20)
     # sorting records: `sorted(X)` / `X.sort()` without a key compares whole entries; when two entries tie
